@@ -105,6 +105,52 @@ pub fn ssc(f: &[&str], cat: bool) -> String {
     }
 }
 
+/// `ssd <hex> <k>`: call `next()` k times on `strip_str(..)`, then `to_string()` and `format!("{}")`
+/// of the partly consumed iterator (Display does not exhaust it), then drain the rest
+pub fn ssd(f: &[&str]) -> String {
+    let data = unhex(f[0]);
+    let k: usize = f[1].parse().unwrap();
+    let Ok(text) = std::str::from_utf8(&data) else { return "INVALID-UTF8".to_owned() };
+    let mut it = strip_str(text);
+    let mut first = Vec::new();
+    for _ in 0..k {
+        match it.next() {
+            Some(p) => first.extend_from_slice(p.as_bytes()),
+            None => break,
+        }
+    }
+    let a = it.to_string();
+    let b = format!("{it}");
+    let c = format!("{it:>12.3}");      // the pieces are `str`s: flags apply per piece (std behaviour), only compared
+    let rest: Vec<u8> = it.flat_map(|p| p.as_bytes().to_vec()).collect();
+    let _ = c;
+    format!("{} {} {} {}", crate::hexo(&first), crate::hexo(a.as_bytes()), crate::hexo(b.as_bytes()), crate::hexo(&rest))
+}
+
+/// `sbx <hex1> <hex2> <k>`: StrippedBytes::new(h1), take k pieces, into_vec of a clone, drain, is_empty, extend(h2), drain
+pub fn sbx(f: &[&str]) -> String {
+    let d1 = unhex(f[0]);
+    let d2 = unhex(f[1]);
+    let k: usize = f[2].parse().unwrap();
+    let mut it = strip_bytes(&d1);
+    let mut first = Vec::new();
+    for _ in 0..k {
+        match it.next() {
+            Some(p) => first.extend_from_slice(p),
+            None => break,
+        }
+    }
+    let cloned = it.clone().into_vec();
+    let mut rest1 = Vec::new();
+    for p in it.by_ref() {
+        rest1.extend_from_slice(p);
+    }
+    let empty = it.is_empty();
+    it.extend(&d2);
+    let rest2: Vec<u8> = it.flat_map(|p| p.to_vec()).collect();
+    format!("{} {} {} {} {}", crate::hexo(&first), crate::hexo(&cloned), crate::hexo(&rest1), empty as u8, crate::hexo(&rest2))
+}
+
 pub fn dispatch(kind: &str, f: &[&str]) -> Option<String> {
     Some(match kind {
         "sb" => sb(f, false),
@@ -115,6 +161,8 @@ pub fn dispatch(kind: &str, f: &[&str]) -> Option<String> {
         "sbccat" => sbc(f, true),
         "ssc" => ssc(f, false),
         "ssccat" => ssc(f, true),
+        "ssd" => ssd(f),
+        "sbx" => sbx(f),
         _ => return None,
     })
 }
